@@ -14,6 +14,9 @@ def run(res, tier, seed):
     engine.corpus(res, "C02")
     n = 80 if tier == "quick" else 700
     engine.run_ops(res, "C02", OPS, seed, n, 130 if tier == "quick" else 400)
+    # Tier B: the faithful M4RI / PLUQ-route / hybrid / top-reduction models with the build's constants
+    from props import tierb
+    tierb.run(res, "C02", tier, seed)
 
 
 def replay(res, path):
